@@ -109,6 +109,10 @@ func (s *serviceAuthenticate) Receive(m *net.Message, from Channel) error {
 		return from.SendError(m, ErrActionNotFound)
 	}
 	response, err := s.wrapAuthenticate(from, m.Payload)
+	// do not respond to post messages.
+	if m.Header.Type == net.Post {
+		return nil
+	}
 	if err != nil {
 		return from.SendError(m, err)
 	}
